@@ -68,8 +68,27 @@ impl CaoLangAllocator {
     /// the allocator at a time
     pub unsafe fn alloc(&self, l: Layout) -> Result<NonNull<u8>, AllocError> {
         let s = l.size() + l.align();
+        #[cfg(feature = "verif-hooks")]
+        if crate::verif::gc_forced_now() && !self.runtime.is_null() {
+            unsafe {
+                (*self.runtime).gc();
+            }
+        }
         let allocated = s + self.allocated.fetch_add(s, Ordering::Relaxed);
         if allocated > self.limit.load(Ordering::Relaxed) {
+            #[cfg(feature = "verif-hooks")]
+            crate::verif::emit(|| crate::verif::Event::Alloc {
+                charge: s,
+                ok: false,
+                allocated: self.allocated.load(Ordering::Relaxed),
+                next_gc: self.next_gc.load(Ordering::Relaxed),
+                limit: self.limit.load(Ordering::Relaxed),
+                live_bytes: if crate::verif::wants_live_bytes() && !self.runtime.is_null() {
+                    Some(unsafe { (*self.runtime).verif_live_bytes() })
+                } else {
+                    None
+                },
+            });
             return Err(AllocError::OutOfMemory);
         }
         if allocated > self.next_gc.load(Ordering::Relaxed) {
@@ -83,6 +102,15 @@ impl CaoLangAllocator {
             );
         }
         let ptr = alloc(l);
+        #[cfg(feature = "verif-hooks")]
+        crate::verif::emit(|| crate::verif::Event::Alloc {
+            charge: s,
+            ok: true,
+            allocated: self.allocated.load(Ordering::Relaxed),
+            next_gc: self.next_gc.load(Ordering::Relaxed),
+            limit: self.limit.load(Ordering::Relaxed),
+            live_bytes: None,
+        });
         Ok(NonNull::new(ptr).unwrap())
     }
 
@@ -92,6 +120,11 @@ impl CaoLangAllocator {
     pub unsafe fn dealloc(&self, p: NonNull<u8>, l: Layout) {
         let s = l.size() + l.align();
         self.allocated.fetch_sub(s, Ordering::Relaxed);
+        #[cfg(feature = "verif-hooks")]
+        crate::verif::emit(|| crate::verif::Event::Dealloc {
+            charge: s,
+            allocated: self.allocated.load(Ordering::Relaxed),
+        });
         dealloc(p.as_ptr(), l);
     }
 }
